@@ -46,6 +46,10 @@ import operator as O
 OPS = [("==", O.eq), ("!=", O.ne), ("<", O.lt), ("<=", O.le), (">", O.gt), (">=", O.ge)]
 
 
+def _arg_is_bool(value, arg):
+    return type(arg) is bool
+
+
 def atoms():
     A = []
     tg = lambda k: (lambda p: p.tags.get(k, MISSING))
@@ -68,6 +72,9 @@ def atoms():
         A.append(("F.%s.exists" % k, (lambda k=k: FieldQuery()[k].exists()), (lambda p, k=k: k in p.fields), True))
         A.append(("F.%s.test" % k, (lambda k=k: FieldQuery()[k].test(_is_zero)), (lambda p, k=k: k in p.fields and _is_zero(p.fields[k])), True))
         A.append(("F.%s.test2" % k, (lambda k=k: FieldQuery()[k].test(_ge, 1)), (lambda p, k=k: k in p.fields and _ge(p.fields[k], 1)), True))
+        # extra arguments that are equal (1 == True) but of different type, handed to a test function that can tell them apart
+        A.append(("F.%s.testarg(1)" % k, (lambda k=k: FieldQuery()[k].test(_arg_is_bool, 1)), (lambda p, k=k: False), True))
+        A.append(("F.%s.testarg(True)" % k, (lambda k=k: FieldQuery()[k].test(_arg_is_bool, True)), (lambda p, k=k: k in p.fields), True))
     for name, op in OPS:
         A.append(("M%s'm0'" % name, (lambda op=op: op(MeasurementQuery(), "m0")), cmp_sem(lambda p: p.measurement, op, "m0"), True))
         A.append(("t%s+1" % name, (lambda op=op: op(TimeQuery(), T0 + timedelta(seconds=1))), cmp_sem(lambda p: p.time, op, T0 + timedelta(seconds=1)), True))
